@@ -265,6 +265,11 @@ func init() {
 		tx.done = true
 		if ex.sqlFault("Commit") {
 			w.db = tx.snap
+			// a failed COMMIT is a driver error, or - when the transaction's context expired and database/sql
+			// already rolled it back in the background - the sentinel sql.ErrTxDone
+			if ex.choose(2, nil, "commit-error-kind") == 1 {
+				return ex.P.errTxDone()
+			}
 			return ex.opaqueErr("sql: commit failed")
 		}
 		w.commits = append(w.commits, &Commit{pre: tx.snap, post: w.db.Clone(), time: w.now, owner: w.curCoro})
